@@ -1373,6 +1373,15 @@ class FortranFile:
             # #if condition must not be taken for a continuation mark
             if get_full and FRegex.PP_ANY.match(line):
                 continue
+            # Fixed-form comment lines (flagged in column 1) are not statements,
+            # whatever their text reads like
+            if (
+                get_full
+                and self.fixed
+                and FRegex.FIXED_COMMENT.match(line)
+                and not FRegex.FIXED_OPENMP.match(line)
+            ):
+                continue
             # Get full line, seek forward for code lines
             # @note line_no-1 refers to the array index for the current line
             if get_full:
